@@ -27,7 +27,7 @@ from .common import run_cases, model_output, coq_str, VERIF, CoqError
 GEN_DEPS = ["Handlers.v", "tr_handlers"]
 TRUSTED = [
     "translator/tr_handlers.py: the three accessor shapes, the plan of the tail of _solve_with_wrapper (grammar in its docstring)",
-    "Model/Accessors.v: Python's try/except matching (run_try), numpy's in-place add / dot on 1-D arrays reduced to their "
+    "Model/Accessors.v: Python's try/except matching (run_try), numpy's (in-place or out-of-place, as generated) add and dot on 1-D arrays reduced to their "
     "lengths; only the CLASS of an outcome is modelled (a number / a vector / a matrix vs. an exception class)",
     "`assert` statements are modelled as raising AssertionError (python -O is outside the model)",
     "cvxpy: variables and expression values are None when the status is infeasible / unbounded (*_inaccurate included)",
